@@ -46,13 +46,23 @@ func c11Step(x *engine.Exec) []engine.Failure {
 			return []engine.Failure{fail("endblock", "error", "block failed: %v", x.Res.Err)}
 		}
 		// rebalancing: mint+delegate is exact, each Unbond truncates < 1 unit in favour of the validator's other delegators
-		bound := ratI(int64(changed))
-		if absRat(dNet).Cmp(bound) > 0 || (changed == 0 && dNet.Sign() != 0) {
+		// analysis: an Unbond returns floor(shares x rate); the truncated fraction eps in [0,1) stays with the validator and is
+		// shared pro rata, so the net supply moves by eps x (1 - module fraction) in [0,1) per validator unbonded from - never
+		// down; mint+delegate is exact up to the 18-digit share quotient
+		decreased := 0
+		for v := range ns.ModShares {
+			if ns.ModShares[v].Cmp(ps.ModShares[v]) < 0 {
+				decreased++
+			}
+		}
+		bound := ratI(int64(decreased))
+		lower := big.NewRat(-1, 1000000)
+		if dNet.Cmp(lower) < 0 || (decreased > 0 && dNet.Cmp(bound) >= 0) || (decreased == 0 && absRat(dNet).Cmp(big.NewRat(1, 1000000)) > 0) {
 			cause := ""
 			if c := c10Classify(x); c == "validator-removed-while-alliance-stake-on-it" {
 				cause = c
 			}
-			out = append(out, fail("net-supply", cause, "%s changed the net bond-denom supply by %s; module delegations changed on %d validators (bound: < 1 unit each)", x.Op.String(), world.RatF(dNet), changed))
+			out = append(out, fail("net-supply", cause, "%s changed the net bond-denom supply by %s; module delegations decreased on %d validators (allowed: [0, 1) per validator unbonded from)", x.Op.String(), world.RatF(dNet), decreased))
 		}
 		if changed > 0 {
 			x.Cnt.Inc("block.rebalanced")
